@@ -5,6 +5,16 @@ VERIF = os.path.dirname(os.path.dirname(os.path.abspath(__file__)))
 sys.path.insert(0, os.path.join(VERIF, "lib"))
 from props import PROPS, NOT_CLAIMED, HOOK_COMMITS
 
+TECH = {
+    "lean+h-core": "Lean 4 proof (invariants by induction over the action list of a small-step model) + per-step correspondence check against the real code under a controlled scheduler",
+    "lean+h-core(unmanaged)": "Lean 4 proof (invariants by induction over the action list of a small-step model) + per-step correspondence check against the real code under a controlled scheduler",
+    "lean+h-sync": "Lean 4 proof (invariant by induction over the action list of a small-step model, specification automaton over the event history) + trace-inclusion correspondence check: the real-time event log of the real code on a multi-threaded runtime must be accepted by the model",
+    "lean+h-syncpools": "Lean 4 proof (decision tables by case analysis; trace invariant by induction over the action list of the pool model under an honest-environment hypothesis) + differential correspondence check of sequential histories against the real pools",
+    "lean+h-pg(wire)": "Lean 4 proof (decision logic; data-structure invariant by induction over operation sequences; registry exactness from the pool model's conservation invariant) + differential correspondence check of sequential histories against the real pool and a scripted wire-protocol server",
+    "lean+h-redis": "Lean 4 proof (decision logic, round-trip laws, freshness by induction) + differential correspondence check against the real code (scripted RESP server / local listeners / serde)",
+    "lean+h-pg": "Lean 4 proof (total function on mirror structures, per-field laws by case analysis) + differential correspondence check of generated configurations against the real code",
+}
+
 checks = []
 for pid in sorted(PROPS):
     p = PROPS[pid]
@@ -17,7 +27,7 @@ for pid in sorted(PROPS):
         "engine": p.get("engine", "lean+h-core"),
         "level_claimed": {"category": "proof", "text": p["level_text"], "design_ref": p["design_ref"]},
         "level_note": p["level_note"],
-        "technique": p.get("technique", "Lean 4 proof (invariants by induction over the action list of a small-step model) + per-step correspondence check against the real code under a controlled scheduler"),
+        "technique": p.get("technique", TECH.get(p.get("engine", "lean+h-core"))),
     })
 m = {
     "version": 1,
@@ -31,7 +41,11 @@ m = {
     },
     "engines": [
         {"name": "lean", "path": "lean/", "serves_properties": sorted(PROPS), "kind_free_text": "Lean 4 models (Model/), lemmas (Lemmas/), property theorems (Props/), dpmodel driver (Driver/)"},
-        {"name": "h-core", "path": "harness/h-core", "serves_properties": sorted(PROPS), "kind_free_text": "runs the real deadpool code under a baton scheduler with scripted manager/hooks; emits action+observation traces"},
+        {"name": "h-core", "path": "harness/h-core", "serves_properties": [p for p in sorted(PROPS) if PROPS[p].get("engine", "lean+h-core").startswith("lean+h-core")], "kind_free_text": "runs the real deadpool code under a baton scheduler with scripted manager/hooks; emits action+observation traces"},
+        {"name": "h-sync", "path": "harness/h-sync", "serves_properties": ["C14"], "kind_free_text": "runs the real SyncWrapper on a multi-threaded tokio runtime with gated closures; emits the real-time event log"},
+        {"name": "h-syncpools", "path": "harness/h-syncpools", "serves_properties": ["C15"], "kind_free_text": "sequential histories over the real sqlite / r2d2 (scripted ManageConnection) / diesel pools with connection identity observed at every hand-out"},
+        {"name": "h-pg", "path": "harness/h-pg", "serves_properties": ["C16", "C18"], "kind_free_text": "cfg-diff: generated Config values through the real get_pg_config()/create_pool(); wire: real pool and clients against a scripted PostgreSQL wire-protocol server"},
+        {"name": "h-redis", "path": "harness/h-redis", "serves_properties": ["C17", "C19"], "kind_free_text": "diff: real create_pool()/From impls/serde of the redis crates with contacted servers observed on local listeners; recycle: real pool against a scripted RESP server"},
         {"name": "check", "path": "bin/check", "serves_properties": sorted(PROPS), "kind_free_text": "orchestrator: proof gate + axiom audit, correspondence diff, monitors, evidence"},
     ],
     "checks": checks,
